@@ -3,8 +3,8 @@ ALL = ['C%02d' % i for i in range(1, 21)]
 CHECKS = {
  'C06': dict(level='exploration', ref='3/C06',
    technique='bounded-exhaustive product of import structures x instances x units configurations x name clashes; flat model validated, analysed, compiled and run against ground-truth values',
-   text='The full product (3200 file sets) of import structure (leaf, encapsulated child, child that is an import, import of an import, grandchild) x one or two instances x library units '
-        '(incl. units defined through other units and units used only in cn) x units-name clashes (equal and different definitions, local and imported, two levels below the import) x component-name clashes x root units '
+   text='The full product (34560 file sets; quick: a 3600-member sub-product) of import structure (leaf, encapsulated child, child that is an import, import of an import, grandchild with units of its own) x one or two instances x local components of the importing model encapsulated under the import instance (none, two, three) x one or two math blocks x library units '
+        '(incl. units defined through other units to depth 3, units used only in cn, two units the library itself imports and uses against their declaration order) x units-name clashes (equal and different definitions, local and imported, two levels below the import) x component-name clashes x root units '
         'imports: resolveImports succeeds, flattenModel returns a model without imports that validates with zero issues, the argument model and every library model are unchanged, the flat model analyses as algebraic '
         'and its generated C and Python give the ground-truth value (unit scales included) of the root variables.',
    note='Trusted: ground truth computed in harness/c06.py from the spec, lcx canonical dumps (common.hpp), gcc/CPython. Not covered: ODE/NLA content in imported components, more than three library files, resets in imported components.'),
